@@ -105,12 +105,37 @@ func (s *ManagedServer) saveToFile() error {
 	}
 	b = append(b, '\n') // b has plenty of unused capacity.
 
-	if err = os.WriteFile(s.path, b, 0644); err != nil {
+	// Never write into the store file itself: a crash or a failed write would leave a truncated document.
+	// Write a temporary file next to it and rename it over the store file.
+	tmpPath := s.path + ".tmp"
+	if err = writeFileSync(tmpPath, b, 0644); err != nil {
+		_ = os.Remove(tmpPath)
+		return err
+	}
+	if err = os.Rename(tmpPath, s.path); err != nil {
+		_ = os.Remove(tmpPath)
 		return err
 	}
 
 	s.cachedContent = unsafe.String(unsafe.SliceData(b), len(b))
 	return nil
+}
+
+// writeFileSync writes data to the named file like [os.WriteFile],
+// and commits the file's content to stable storage before closing it.
+func writeFileSync(name string, data []byte, perm os.FileMode) error {
+	f, err := os.OpenFile(name, os.O_WRONLY|os.O_CREATE|os.O_TRUNC, perm)
+	if err != nil {
+		return err
+	}
+	_, err = f.Write(data)
+	if err == nil {
+		err = f.Sync()
+	}
+	if cerr := f.Close(); err == nil {
+		err = cerr
+	}
+	return err
 }
 
 func (s *ManagedServer) dequeueSave(ctx context.Context) {
